@@ -218,14 +218,15 @@ def run(tier, seed):
             return next(x for x in ([6, 78, 131, 202, 251, 9, 10] if small else [6, 78, -10, 70001, 9, 10]) if x not in used)
         if r2.random() < 0.4:
             # built-in types given in place: { INTEGER IDENTIFIED BY 6 }; a named alias serves the stand-alone runs
-            for kind in r2.sample(["INTEGER", "BOOLEAN", "IA5String", "UTF8String", "REAL"], r2.choice([1, 2])):
+            for kind in r2.sample(["INTEGER", "BOOLEAN", "IA5String", "UTF8String", "REAL", "OCTET STRING", "BIT STRING", "OBJECT IDENTIFIER"], r2.choice([1, 2, 3])):
                 ios.rows.append((newid(), kind))
-                for nm in (kind, "BI" + kind):
+                al = "BI" + kind.replace(" ", "")
+                for nm in (kind, al):
                     t_ = Type(kind)
                     gen._set_module(t_, mod)
                     mod.add(nm, t_)
-                ios.alias[kind] = "BI" + kind
-                rwtext += "BI%s ::= %s\n\n" % (kind, kind)
+                ios.alias[kind] = al
+                rwtext += "%s ::= %s\n\n" % (al, kind)
         if r2.random() < 0.4:
             # a second object with the type of an earlier one: the rows share the member of the generated union
             ios.rows.append((newid(), r2.choice(ios.rows)[1]))
@@ -492,7 +493,7 @@ def run(tier, seed):
                         what, (ev[1].get("out") or "-")[:60], x.hex()[:60]), replay)
                     continue
                 cx = drv.unhex(ev[2].get("out")) if ev[2].get("out") not in (None, "-") else b""
-                if ("<value><%s" % tn).encode() not in cx:
+                if ("<value><%s" % tn.replace(" ", "_")).encode() not in cx:
                     chk.violation(dict(key, symptom="wrong-row-selected"), "%s: CANONICAL-XER does not show <%s> under <value>: %s" % (
                         what, tn, cx[:160].decode("latin-1")), replay)
                     continue
